@@ -35,6 +35,16 @@ func reobsTx(i int64) []byte {
 	if i < 0 {
 		i = -i
 	}
+	switch i % 8 {
+	case 4: // 33 bytes whose last 32 are transaction 0
+		return append([]byte{0x77}, bytes.Repeat([]byte{0x10}, 32)...)
+	case 5: // 31 bytes
+		return bytes.Repeat([]byte{0x11}, 31)
+	case 6: // 32 bytes: transaction 5 with a leading zero
+		return append([]byte{0}, bytes.Repeat([]byte{0x11}, 31)...)
+	case 7:
+		return []byte{0xab}
+	}
 	return bytes.Repeat([]byte{byte(0x10 + i%4)}, 32)
 }
 
@@ -54,6 +64,9 @@ func (reobsHarness) Gen(seed uint64, prop, tier string) *simkit.Program {
 		switch r.Pick(10, 6, 3, 2, 1) {
 		case 0:
 			c, tx := int64(r.Intn(5)), int64(r.Intn(4))
+			if r.P(0.25) {
+				tx = int64(4 + r.Intn(4)) // ids of unusual length; distinct byte strings are distinct transactions
+			}
 			if r.P(0.6) {
 				c, tx = hot[0], hot[1]
 			}
